@@ -281,6 +281,73 @@ func runC20(p *Prog, r *Report, tier string) {
 				"on every edge into the slice bound the count is len(flowRecords) or proven 0 <= count <= len(flowRecords) by the branch conditions", "the count used in the slice bound is not clamped to [0, len(flowRecords)]: "+why+" (a large or negative count panics or returns the wrong window)", true)
 		}
 	}
+	// a parsed count is used only where parsing succeeded and the value is not negative (invalid queries are refused)
+	nParsed := 0
+	eachInstr(q, func(in ssa.Instruction) {
+		c, ok := in.(*ssa.Call)
+		if !ok || calleeName(&c.Call) != "strconv.Atoi" {
+			return
+		}
+		var val, perr ssa.Value
+		for _, ref := range refs(c) {
+			if ex, ok := ref.(*ssa.Extract); ok {
+				if ex.Index == 0 {
+					val = ex
+				} else {
+					perr = ex
+				}
+			}
+		}
+		if val == nil {
+			return
+		}
+		nParsed++
+		for _, ref := range refs(val.(*ssa.Extract)) {
+			var factSets [][]relFact
+			switch x := ref.(type) {
+			case *ssa.BinOp:
+				switch x.Op {
+				case token.LSS, token.LEQ, token.GTR, token.GEQ, token.EQL, token.NEQ:
+					continue // a test of the value, not a use
+				}
+				factSets = append(factSets, blockFacts(x.Block()))
+			case *ssa.DebugRef:
+				continue
+			case *ssa.Phi:
+				for i, e := range x.Edges {
+					if e == val {
+						factSets = append(factSets, edgeFacts(x.Block().Preds[i], x.Block()))
+					}
+				}
+			default:
+				factSets = append(factSets, blockFacts(ref.Block()))
+			}
+			for _, facts := range factSets {
+				nonneg, parsed := false, perr == nil
+				for _, f := range facts {
+					x, op, y := f.X, f.Op, f.Y
+					if y == val {
+						x, y, op = y, x, flipOp(op)
+					}
+					if x == val {
+						if z, ok := constInt(y); ok && ((op == token.GEQ && z >= 0) || (op == token.GTR && z >= -1)) {
+							nonneg = true
+						}
+					}
+					if f.X == perr && f.Op == token.EQL {
+						if k, ok := f.Y.(*ssa.Const); ok && k.IsNil() {
+							parsed = true
+						}
+					}
+				}
+				r.Check(nonneg && parsed, "R-GATE.refuse", "cmd/collector.flowRecordHandler: parsed count used", p.instrPos(ref), "only where err == nil and count >= 0 hold",
+					"the count query parameter is used although parsing failed or the value is negative: an invalid query is answered instead of refused", true)
+			}
+		}
+	})
+	if nParsed == 0 {
+		r.Undecided("R-GATE.refuse", "anchor: strconv.Atoi of the count parameter", p.pos(q.Pos()), "the count parameter is no longer parsed with strconv.Atoi: cannot see how invalid counts are refused")
+	}
 	// the stored entries are written verbatim (never used as a format string)
 	eachInstr(q, func(in ssa.Instruction) {
 		c, ok := in.(*ssa.Call)
